@@ -166,7 +166,55 @@ theorem embedded_coherent :
     · rw [Nat.eq_of_beq_eq_true d]; simp
     · exact List.mem_cons_of_mem _ (ih d)
 
+theorem memN_sound : ∀ (l : List Nat) (x : Nat), Tables.memN x l = true → x ∈ l := by
+  intro l
+  induction l with
+  | nil => intro x h; simp [Tables.memN] at h
+  | cons y ys ih =>
+    intro x h
+    simp only [Tables.memN, Bool.or_eq_true] at h
+    rcases h with h | h
+    · rw [Nat.eq_of_beq_eq_true h]; simp
+    · exact List.mem_cons_of_mem _ (ih x h)
+
+/-- whatever plasmid is loaded, from an archive or from a directory: when `find_resistance` answers, the
+answer is the antibiotic the table gives for a cassette tag that labels one of the features — never anything
+else -/
+theorem resistance_from_table (table : List (Nat × Nat)) : ∀ (feats : List (List Nat)) (r : Nat),
+    findResistance table feats = .ok r → ∃ labels ∈ feats, ∃ tag ∈ labels, (tag, r) ∈ table := by
+  intro feats
+  induction feats with
+  | nil => intro r h; simp [findResistance] at h
+  | cons labels rest ih =>
+    intro r h
+    unfold findResistance at h
+    split at h
+    · obtain ⟨l, hl, t, ht, hm⟩ := ih r h
+      exact ⟨l, List.mem_cons_of_mem _ hl, t, ht, hm⟩
+    · rename_i c hc
+      have hcm : c ∈ (labels.eraseDups).filter (fun l => table.any (fun e => e.1 == l)) := by rw [hc]; simp
+      have hcl : c ∈ labels := List.mem_eraseDups.mp (List.mem_filter.mp hcm).1
+      split at h
+      · rename_i e he
+        simp only [Except.ok.injEq] at h
+        subst h
+        have hmem := List.mem_of_find?_eq_some he
+        have hk : e.1 = c := by simpa using List.find?_some he
+        exact ⟨labels, by simp, c, hcl, by rw [← hk]; exact hmem⟩
+      · cases h
+    · cases h
+
+/-- … and with the table as it is now (regenerated, kernel-checked) that is one of the four known antibiotics -/
+theorem resistance_known (feats : List (List Nat)) (r : Nat)
+    (h : findResistance Generated.antibiotics feats = .ok r) : r ∈ Tables.knownResistance := by
+  obtain ⟨_, _, tag, _, hm⟩ := resistance_from_table _ feats r h
+  have := List.all_eq_true.mp Tables.antibiotics_known (tag, r) hm
+  exact memN_sound _ _ this
+
 /-! non-vacuity -/
+example : findResistance [(1, 10), (2, 20)] [[5], [7, 2, 2], [1]] = .ok 20 ∧
+    findResistance [(1, 10), (2, 20)] [[1, 2]] = .error .multiple ∧
+    findResistance [(1, 10), (2, 20)] [[5], []] = .error .notFound := by decide
 example : Reg.combine [[(1, "a"), (2, "b")], [(2, "c"), (3, "d")], [(1, "e")]]
     = [(1, "a"), (2, "b"), (3, "d")] := by decide
 
